@@ -153,12 +153,21 @@ func VX_C08_project() {
 	case "select_perm":
 		g := f.Select("d", "a", "e")
 		vxCheckFrame(g, []string{"d", "a", "e"}, []vxCol{cols[3], cols[0], cols[4]}, ix, "Select")
+		// the projected frame must behave like any other frame: replace a moved column
+		h := g.Copy("a", "e")
+		vxCheckFrame(h, []string{"d", "a", "e"}, []vxCol{cols[3], cols[4], cols[4]}, ix, "Select then Copy onto a moved column")
+		h2 := g.Copy("d", "a")
+		vxCheckFrame(h2, []string{"d", "a", "e"}, []vxCol{cols[0], cols[0], cols[4]}, ix, "Select then Copy onto the first column")
 	case "select_unknown":
 		g := f.Select("a", "nosuch")
 		vx.Check(g.Err != nil && g.Len() == -1, "Select: unknown column rejected")
 	case "drop":
 		g := f.Drop("b", "d")
 		vxCheckFrame(g, []string{"a", "c", "e"}, []vxCol{cols[0], cols[2], cols[4]}, ix, "Drop")
+		h := g.Copy("c", "e")
+		vxCheckFrame(h, []string{"a", "c", "e"}, []vxCol{cols[0], cols[4], cols[4]}, ix, "Drop then Copy onto a moved column")
+		h2 := f.Drop("a").Copy("e", "b")
+		vxCheckFrame(h2, []string{"b", "c", "d", "e"}, []vxCol{cols[1], cols[2], cols[3], cols[1]}, ix, "Drop first then Copy onto the last column")
 	case "drop_none":
 		g := f.Drop()
 		vxCheckFrame(g, names, cols, ix, "Drop()")
